@@ -389,6 +389,7 @@ def engine_concrete_memerror(hist, vals):
     return False, "no memory error"
 
 def replay(data):
+    if data.get('kind') == 'lookup_growth': return native_many_hashes()
     return native_history([tuple(o) for o in data['hist']], {k: int(v) for k, v in data['inputs'].items()})[:2]
 
 # ------------------------------------------------------------------------------------------ reb_hash vs MurmurHash3 spec
@@ -496,7 +497,72 @@ def histories(tier):
         if k not in seen: seen.add(k); out.append(h)
     return out
 
+def run_lookup_growth(u):
+    """the lazy rebuild of the hash -> index table grows the table INSIDE its fill loop.  The growth step is exercised with a small
+    allocation (N_allocated_lookup = 1 is not reachable through the API, where the capacity is 128 * 2^k, but the code is uniform in
+    the capacity): K particles with symbolic, pairwise different, non-zero hashes; after the rebuild every hash must be found and
+    must resolve to its particle.  A violation is replayed through the public API with 129..300 hashed particles."""
+    rep = Report(); K = u['K']; label = "lookup table growth K=%d " % K
+    L = build.layout()
+    def run(ctx):
+        dom = UF(); I = new_interp(dom, ctx); I.concrete_env = True; I.loop_bound = 400
+        sim = Sim(I)
+        H = []
+        for i in range(K):
+            sim.add(m=1.0, x=float(i))
+            h = z3.BitVec('hash%d' % i, 32); ctx.assume(h != 0)
+            for g in H: ctx.assume(h != g)
+            H.append(h); sim.particle(i).set('hash', h)
+        tab = I.mem.alloc(L.structs['reb_hash_pointer_pair']['size'] * 1, 'lookup', 'heap', zero=True)
+        sim.set('particle_lookup_table', tab); sim.set('N_allocated_lookup', 1); sim.set('N_lookup', 0)
+        found = []
+        for i in range(K):
+            p = I.call('@reb_simulation_particle_by_hash', [sim.ptr, H[i]])
+            found.append(p)
+        return I, sim, H, found
+    ex = Explorer(run, max_paths=4000, timeout_ms=2000)
+    try: ex.explore()
+    except BoundExceeded as e: rep.bound_exceeded.append(label + str(e))
+    rep.queries += ex.nqueries; rep.solver_time += ex.qtime
+    psz = L.structs['reb_particle']['size']
+    for ctx, (I, sim, H, found) in ex.results:
+        rep.paths += 1; rep.add_interp(I)
+        ob = Obligations(rep, Prover(t_inproc_ms=5000, use_external=False), label + "path%d " % rep.paths)
+        base = sim.get('particles')
+        def on_sat(model):
+            ok, detail = native_many_hashes()
+            return ok, 'C14:lookup:growth', detail, dict(kind='lookup_growth')
+        for i in range(K):
+            p = found[i]
+            ob.prove("particle_by_hash(hash of particle %d) returns particle %d" % (i, i), isinstance(p, Ptr) and isinstance(base, Ptr) and p.obj == base.obj and p.off == base.off + i * psz, list(ctx.pc), on_sat=on_sat, domain='BV32 hashes',
+                     sample=dict(returned=str(p)))
+        ob.prove("table capacity covers the entries", sim.get('N_allocated_lookup') >= K and sim.get('N_lookup') == K, [], on_sat=on_sat, domain='structure')
+        ob.witness("path", list(ctx.pc))
+    bad, detail = native_many_hashes(); rep.replays += 1
+    if bad: rep.violations.append(dict(key='C14:lookup:growth', what=detail, replay=dict(kind='lookup_growth'), obligation=label + 'native twin'))
+    return rep
+
+def native_many_hashes():
+    """public API: N particles with distinct hashes are added without any lookup in between; the FIRST lookup (which builds the
+    table and makes it grow 128 -> 256 -> 512 inside the fill loop) asks for an early particle"""
+    import ctypes
+    N_ = get_native(); bad = []
+    f = N_.lib.reb_simulation_particle_by_hash; f.restype = ctypes.c_void_p; f.argtypes = [ctypes.c_void_p, ctypes.c_uint32]
+    for Ntot in (129, 200, 257, 300):
+        for first in (0, 5, 127):
+            ns = N_.create()
+            try:
+                for i in range(Ntot): ns.add(m=1.0, x=float(i), hash=1000 + 7 * i)
+                base = ns.get('particles')
+                for j in (first, Ntot - 1, 64):
+                    p = f(ns.addr, 1000 + 7 * j)
+                    if p != base + j * N_.psize: bad.append((Ntot, j, p))
+            finally:
+                ns.free()
+    return bool(bad), "native: simulations of 129..300 particles with distinct hashes, first lookup asks for an early particle: %s" % (("wrong/missing results (N, index, pointer): %r" % bad[:4]) if bad else "all found")
+
 def worker(u):
+    if 'K' in u: return run_lookup_growth(u)
     return run_hash(u) if 'len' in u else run_unit(u)
 
 def main():
@@ -505,6 +571,7 @@ def main():
     build.module(); build.layout(); build.build_native()
     us = [dict(hist=h) for h in histories(tier)]
     us += [dict(len=n, t_ms=(20000 if tier == 'quick' else 120000), ext=(tier != 'quick')) for n in (range(0, 5) if tier == 'quick' else range(0, 9))]
+    us.append(dict(K=3 if tier == 'quick' else 5))
     rep = run_units(us, worker)
     code = finish(PID, tier, rep, t0,
         bounds=dict(histories=len([u for u in us if 'hist' in u]), max_particles=3 if tier == 'quick' else 5, history_length='<= 3 operations after 1..3 adds', string_bytes='0..4' if tier == 'quick' else '0..8', loop_unwinding=400),
